@@ -139,3 +139,79 @@ func init() {
 		)
 	}
 }
+
+// ---------------------------------------------------------------- more than two parties
+
+// A class function that returns a new collection may be called twice with the same operand, and on its own
+// result.  Whatever the results share with the operand to save work has to cope with more than two parties: every
+// party is changed in place in turn, and all the others must stay as they were.
+func init() {
+	n := lib.Notation()
+	several := func(name string, derive func(src col.ListLike[int], k int) col.Sequential[int], change func(p col.Sequential[int], k int)) aliasEntry {
+		return aliasEntry{name + "/several-results", func(size, pos int) (string, string, bool) {
+			src := col.List[int](n).MakeFromArray(intsN(size))
+			parties := []col.Sequential[int]{src}
+			for k := 1; k <= 3; k++ {
+				parties = append(parties, derive(src, k))
+			}
+			before, after := "", ""
+			order := []int{1 + pos%3, 1 + (pos+1)%3, 0, 1 + (pos+2)%3}
+			for _, k := range order {
+				var others string
+				for j, p := range parties {
+					if j != k {
+						others += fmt.Sprint(j, p.AsArray(), " ")
+					}
+				}
+				change(parties[k], k)
+				var now string
+				for j, p := range parties {
+					if j != k {
+						now += fmt.Sprint(j, p.AsArray(), " ")
+					}
+				}
+				before += others + "| "
+				after += now + "| "
+			}
+			return before, after, size > 0
+		}}
+	}
+	inPlace := func(p col.Sequential[int], k int) {
+		if u, ok := p.(interface {
+			col.Updatable[int]
+			col.Sortable[int]
+		}); ok && p.GetSize() > 0 {
+			u.SetValue(1, -100-k)
+			u.ReverseValues()
+		} else if st, ok := p.(col.StackLike[int]); ok {
+			if st.GetSize() > 0 {
+				st.RemoveTop()
+			}
+			st.AddValue(-100 - k)
+		} else if s, ok := p.(col.SetLike[int]); ok {
+			s.AddValue(-100 - k)
+			if s.GetSize() > 1 {
+				s.RemoveValue(s.GetValue(-1))
+			}
+		}
+	}
+	L := col.List[int](n)
+	aliasEntries = append(aliasEntries,
+		several("List.Concatenate(x, [])", func(src col.ListLike[int], k int) col.Sequential[int] { return L.Concatenate(src, L.Make()) }, inPlace),
+		several("List.Concatenate([], x)", func(src col.ListLike[int], k int) col.Sequential[int] { return L.Concatenate(L.Make(), src) }, inPlace),
+		several("List.MakeFromSequence", func(src col.ListLike[int], k int) col.Sequential[int] { return L.MakeFromSequence(src) }, inPlace),
+		several("List.GetValues(all)", func(src col.ListLike[int], k int) col.Sequential[int] {
+			if src.GetSize() == 0 {
+				return L.Make()
+			}
+			return src.GetValues(1, -1)
+		}, inPlace),
+		several("Array.MakeFromSequence", func(src col.ListLike[int], k int) col.Sequential[int] { return col.Array[int](n).MakeFromSequence(src) }, inPlace),
+		several("Stack.MakeFromSequence", func(src col.ListLike[int], k int) col.Sequential[int] { return col.Stack[int](n).MakeFromSequence(src) }, inPlace),
+		several("Set.MakeFromSequence", func(src col.ListLike[int], k int) col.Sequential[int] { return col.Set[int](n).MakeFromSequence(src) }, inPlace),
+		several("Set.Or(x, {})", func(src col.ListLike[int], k int) col.Sequential[int] {
+			S := col.Set[int](n)
+			return S.Or(S.MakeFromSequence(src), S.Make())
+		}, inPlace),
+	)
+}
